@@ -20,7 +20,7 @@ from mtsa.cfg import CFG
 from mtsa.index import FunctionInfo, Repo, calls_in, dotted, norm, walk_no_nested
 from mtsa.report import AnalysisError, Ctx
 
-from .common import cfg_of, guard_texts, has_guard, is_call_to, is_none, returns_of
+from .common import cfg_of, code_selector, guard_texts, has_guard, is_call_to, is_none, returns_of
 from .tracer_model import TRUSTED, Point, TracerScenario, corpus_points, frame_value, relevant
 
 LEVEL = "other"
@@ -203,7 +203,7 @@ def _is_code_of(e: ast.AST, g: CFG, at: int, var: str) -> bool:
 
 def rule_attribution(ctx: Ctx, repo: Repo) -> None:
     """R-C02.4: every function get_func can return was selected by `its __code__ is code`."""
-    hc = repo.fn(M, "_has_code")
+    hc = code_selector(repo, ctx)
     g = cfg_of(hc)
     ctx.functions.add(hc.fq)
     params = hc.positional_params()
